@@ -82,10 +82,18 @@ for pid in sorted(ROWS):
     table.append("| %s | %s (%s) | %s | %s | %s | %s |" % (pid, o, d, k, t, su, w))
 
 metas = [json.load(open(f)) for f in sorted(glob.glob(os.path.join(ROOT, "seeded", "*", "meta.json")))]
-seed_rows = ["| seeded change | what it does | needs | checks that report it (quick tier) |", "|---|---|---|---|"]
+# last regression run of every seeded change against its own property (lib/seed_regress.sh > seeded/REGRESS.txt)
+regress = {}
+rp = os.path.join(ROOT, "seeded", "REGRESS.txt")
+if os.path.exists(rp):
+    for line in open(rp):
+        f = [x.strip() for x in line.split("|")]
+        if len(f) >= 6:
+            regress[f[0]] = "%s, %s, %s" % (f[4], f[5], f[3])
+seed_rows = ["| seeded change | what it does | needs | checks that report it (quick tier) | own property, last regression run |", "|---|---|---|---|---|"]
 for m in metas:
     res = "; ".join("%s: %s" % (k, v) for k, v in m["results_quick_tier"].items())
-    seed_rows.append("| %s | %s | %s | %s |" % (m["id"], m["change"], m["needs_to_manifest"], res))
+    seed_rows.append("| %s | %s | %s | %s | %s |" % (m["id"], m["change"], m["needs_to_manifest"], res, regress.get(m["id"], "-")))
 n_agent = sum(1 for m in metas if not m["id"].startswith("revert-"))
 n_rev = sum(1 for m in metas if m["id"].startswith("revert-"))
 
